@@ -146,13 +146,27 @@ func (s *sim) monQuiescent() {
 		if overdrawn != "" {
 			// classify: does every confirmed vertex pass the cover test in its OWN history (C01 holds)?
 			ownOK := true
+			// checkpointed funds recomputed from the stored vertices themselves (not read from the implementation's store)
+			storedNet := map[string]*big.Int{}
+			for _, sv := range vw.stored {
+				if !sv.Transaction.IsSpiceTransfer() {
+					continue
+				}
+				for _, a := range []string{sv.Transaction.IssuerAddress, sv.Transaction.ReceiverAddress} {
+					if storedNet[a] == nil {
+						storedNet[a] = new(big.Int)
+					}
+				}
+				storedNet[sv.Transaction.IssuerAddress].Sub(storedNet[sv.Transaction.IssuerAddress], valBig(sv.Transaction.Spice))
+				storedNet[sv.Transaction.ReceiverAddress].Add(storedNet[sv.Transaction.ReceiverAddress], valBig(sv.Transaction.Spice))
+			}
 			for _, v := range confirmed {
 				if _, live := vw.live[v.Hash]; !live || !v.Transaction.IsSpiceTransfer() || len(vw.inb[v.Hash]) == 0 {
 					continue
 				}
 				in, out := flows(v.Transaction.IssuerAddress, vw.history(v.Hash))
-				if m, ok := snap.StoredFunds[v.Transaction.IssuerAddress]; ok {
-					in.Add(in, valBig(m))
+				if m, ok := storedNet[v.Transaction.IssuerAddress]; ok {
+					in.Add(in, m)
 				}
 				if in.Cmp(out) < 0 {
 					ownOK = false
